@@ -240,6 +240,18 @@ def judge(case):
     dc = sut.binning().deterministic_choice
     for u in units[:12]:
         key = str(u) if isinstance(u, str) else "direct:" + str(u)
+        # a call without weights sees the same position as any weighted call: for n items it is item floor(u*n), i.e. the item
+        # that equal weights select, and the first of n equal items gives way to the heavier first item of (2, 1, ..., 1) never
+        for n in (2, 4, 5, 16):
+            try:
+                plain, equal, ramped = dc(key, list(range(n))), dc(key, list(range(n)), weights=[1] * n), dc(key, list(range(n)), weights=[2] + [1] * (n - 1))
+            except Exception as e:
+                viol.append("deterministic_choice(%r, %d items) raised %s: %s" % (key, n, type(e).__name__, e))
+                break
+            if plain != equal or ramped > equal:
+                viol.append("deterministic_choice: id %r, %d items: no weights select #%d, equal weights #%d, first weight doubled #%d - one "
+                            "position must explain all three" % (key, n, plain, equal, ramped))
+                break
         for mode in ("as-written", "float", "cum"):
             lo, hi = Fraction(0), Fraction(1)
             prev = None
